@@ -182,10 +182,13 @@ func (z *ZodStringBool[T]) PrefaultFunc(fn func() string) *ZodStringBool[T] {
 	return z.withInternals(in)
 }
 
-// Meta stores metadata in the global registry.
+// Meta returns a new schema with the given metadata stored in the global
+// registry; the receiver and its registry entry are unchanged.
 func (z *ZodStringBool[T]) Meta(meta core.GlobalMeta) *ZodStringBool[T] {
-	core.GlobalRegistry.Add(z, meta)
-	return z
+	in := z.internals.Clone()
+	clone := z.withInternals(in)
+	core.GlobalRegistry.Add(clone, meta)
+	return clone
 }
 
 // Describe registers a description in the global registry.
